@@ -1,39 +1,29 @@
 // releasing `key`, whose dependencies are all ready, keeps "released only after its dependencies, at most once"
 pub proof fn lemma_release_step<ID>(ready: Set<ID>, q: Seq<ID>, key: ID, deps: Seq<ID>)
     requires release_inv(ready, q), deps.to_set() == deps_fn(key), all_in(deps, ready),
-    ensures release_inv(ready.insert(key), if ready.contains(key) { q } else { q.push(key) }),
+    ensures release_inv(ready.insert(key), q.push(key)), ready.contains(key) ==> release_inv(ready.insert(key), q),
 {
-    if ready.contains(key) {
-        assert(ready.insert(key) =~= ready);
-    } else {
-        let q2 = q.push(key);
-        assert(q2.to_set() =~= q.to_set().insert(key)) by {
-            assert forall|x: ID| q2.to_set().contains(x) == q.to_set().insert(key).contains(x) by {
-                if q2.to_set().contains(x) { let i = choose|i: int| 0 <= i < q2.len() && q2[i] == x; if i < q.len() { assert(q[i] == x); } }
-                if q.to_set().contains(x) { let i = choose|i: int| 0 <= i < q.len() && q[i] == x; assert(q2[i] == x); }
-                if x == key { assert(q2[q.len() as int] == x); }
-            }
+    if ready.contains(key) { assert(ready.insert(key) =~= ready); }
+    let q2 = q.push(key);
+    assert(q2.to_set() =~= q.to_set().insert(key)) by {
+        assert forall|x: ID| q2.to_set().contains(x) == q.to_set().insert(key).contains(x) by {
+            if q2.to_set().contains(x) { let i = choose|i: int| 0 <= i < q2.len() && q2[i] == x; if i < q.len() { assert(q[i] == x); } }
+            if q.to_set().contains(x) { let i = choose|i: int| 0 <= i < q.len() && q[i] == x; assert(q2[i] == x); }
+            if x == key { assert(q2[q.len() as int] == x); }
         }
-        assert(q2.no_duplicates()) by {
-            assert forall|i: int, j: int| 0 <= i < q2.len() && 0 <= j < q2.len() && i != j implies q2[i] != q2[j] by {
-                if i < q.len() && j < q.len() { assert(q[i] != q[j]); }
-                else if i < q.len() { assert(q.to_set().contains(q[i])); }
-                else if j < q.len() { assert(q.to_set().contains(q[j])); }
-            }
-        }
-        assert forall|i: int, d: ID| 0 <= i < q2.len() && #[trigger] deps_fn(q2[i]).contains(d) implies exists|j: int| 0 <= j < i && q2[j] == d by {
-            if i < q.len() {
-                assert(deps_fn(q[i]).contains(d));
-                let j = choose|j: int| 0 <= j < i && q[j] == d;
-                assert(q2[j] == d);
-            } else {
-                assert(deps.to_set().contains(d));
-                let k = choose|k: int| 0 <= k < deps.len() && deps[k] == d;
-                assert(ready.contains(deps[k]));
-                assert(q.to_set().contains(d));
-                let j = choose|j: int| 0 <= j < q.len() && q[j] == d;
-                assert(q2[j] == d);
-            }
+    }
+    assert forall|i: int, d: ID| 0 <= i < q2.len() && #[trigger] deps_fn(q2[i]).contains(d) implies exists|j: int| 0 <= j < i && q2[j] == d by {
+        if i < q.len() {
+            assert(deps_fn(q[i]).contains(d));
+            let j = choose|j: int| 0 <= j < i && q[j] == d;
+            assert(q2[j] == d);
+        } else {
+            assert(deps.to_set().contains(d));
+            let k = choose|k: int| 0 <= k < deps.len() && deps[k] == d;
+            assert(ready.contains(deps[k]));
+            assert(q.to_set().contains(d));
+            let j = choose|j: int| 0 <= j < q.len() && q[j] == d;
+            assert(q2[j] == d);
         }
     }
 }
